@@ -18,7 +18,7 @@ RULE = ("Stereo-free valid reactions (curated balanced and corpus reactions with
         "drawn otherwise) and 3-6 drawn equivalent spellings (atom order, kekule, explicit bonds/H, atom maps). Oracle: "
         "normalize(normalize(x)) == normalize(x); normalize(variant) == normalize(x); wc_similarity(x, variant, m) == 1 "
         "for the three methods; for drawn pairs of different reactions 0 <= s <= 1, |s(a,b)-s(b,a)| <= 1e-12 and no "
-        "exception. Non-trivial = a side holding >=2 molecules with equal (atom count, character sum) sort key, or a "
+        "exception. One shard goes end to end through `synrbl benchmark` (rows whose reaction is a variant of the expected reaction must all be counted correct). Non-trivial = a side holding >=2 molecules with equal (atom count, character sum) sort key, or a "
         "respelled variant; distinct = distinct (reaction, variant) strings.")
 ASSUMPTIONS = [
     "stereo-free inputs (the statement's domain); hypervalent explicit-H atoms (known finding K15) are excluded by "
@@ -199,16 +199,73 @@ def check_case(case, spec=None):
     return res
 
 
+def check_benchmark(case, spec=None):
+    """end to end through `synrbl benchmark`: every row's reaction is an order/spelling variant of its expected
+    reaction, so with the default similarity threshold 1 every solved row must be counted as correct."""
+    import csv
+    import json
+    import os
+    import shutil
+    import tempfile
+    res = CaseResult()
+    rows = case["rows"]   # list of [expected, variant, solved_by]
+    d = tempfile.mkdtemp(prefix="synverif-c17-", dir="/var/tmp")
+    try:
+        src, out = os.path.join(d, "run_out.csv"), os.path.join(d, "bench.json")
+        with open(src, "w", newline="") as f:
+            w = csv.writer(f)
+            w.writerow(["reaction", "expected_reaction", "solved", "solved_by", "confidence"])
+            for exp, var, by in rows:
+                w.writerow([var, exp, True, by, 1.0 if by == "mcs-based" else ""])
+        n_rb = sum(1 for r in rows if r[2] == "rule-based")
+        n_mcs = sum(1 for r in rows if r[2] == "mcs-based")
+        stats = {"reaction_cnt": len(rows), "balanced_cnt": 0, "rb_solved": n_rb, "rb_applied": n_rb, "mcs_solved": n_mcs,
+                 "mcs_applied": n_mcs, "confident_cnt": n_mcs}
+        json.dump(stats, open(src + ".stats", "w"))
+        from synrbl.SynCmd import setup_argparser
+        args = setup_argparser().parse_args(["benchmark", src, "-o", out, "--similarity-method", case.get("method", "pathway")])
+        try:
+            args.func(args)
+        except Exception as e:
+            res.fail("benchmark-raises:" + type(e).__name__, "no exception", rows=rows, error=str(e)[:300])
+            return res
+        got = json.load(open(out))
+        if got.get("total_correct") != len(rows) or got.get("accuracy") != 1:
+            # find the offending rows independently of the CLI's counters
+            bad = [r for r in rows if _norm(r[0]) != _norm(r[1])]
+            res.fail("benchmark-miscounts-variants", "variants compare as identical", rows=rows, reported=got,
+                     rows_normalising_differently=bad[:3])
+    finally:
+        shutil.rmtree(d, ignore_errors=True)
+    res.nontrivial = any(r[0] != r[1] for r in rows)
+    res.evals = len(rows)
+    res.tag("benchmark-cli")
+    return res
+
+
+@st.composite
+def benchmark_case(draw):
+    rows = []
+    for _ in range(draw(st.integers(2, 6))):
+        c = draw(variant_case())
+        v = draw(st.sampled_from(c["variants"])) if c["variants"] else c["base"]
+        rows.append([c["base"], v, draw(st.sampled_from(["rule-based", "mcs-based"]))])
+    return {"rows": rows, "method": draw(st.sampled_from(list(METHODS)))}
+
+
 def shards(tier):
     q = tier == "quick"
     out = [{"name": "hyp:%d" % i, "kind": "hyp", "examples": 700 if q else 6000} for i in range(15)]
     out.append({"name": "anagram-pairs", "kind": "anagram-enum"})
+    out.append({"name": "benchmark-cli", "kind": "bench", "examples": 150 if q else 1500})
     return out
 
 
 def run_shard(spec, seed, tier, shard):
     if spec["kind"] == "hyp":
         explore(shard, variant_case(), lambda c: check_case(c, spec), spec["examples"], seed)
+    elif spec["kind"] == "bench":
+        explore(shard, benchmark_case(), check_benchmark, spec["examples"], seed)
     else:
         i = 0
         for g in anagram_groups():
@@ -222,12 +279,16 @@ def run_shard(spec, seed, tier, shard):
 
 
 def shrink_shard(spec, seed, tier, bucket, index, cap_s):
+    if spec["kind"] == "bench":
+        return shrink(benchmark_case(), check_benchmark, bucket, seed, index, spec["examples"], cap_s)
     if spec["kind"] != "hyp":
         return None
     return shrink(variant_case(), lambda c: check_case(c, spec), bucket, seed, index, spec["examples"], cap_s)
 
 
 def replay(case, spec):
+    if "rows" in case:
+        return check_benchmark(case, spec).failures
     return check_case(case, spec).failures
 
 
